@@ -3,7 +3,7 @@
    parse_metadata_schema loads it and runs modify_schema again.  In the model: sorting every
    property list by name ([canon]) and modifying again gives the same codec schema. *)
 From Coq Require Import List ZArith Bool Lia Permutation Sorting.
-From TskVerif Require Import Base.Common C12.Model C12.BytesProofs C12.RoundTripProofs C12.LayoutProofs
+From TskVerif Require Import Base.Common C12.Model C12.BytesProofs C12.Unfold C12.RoundTripProofs C12.LayoutProofs
   C12.OrderProofs C12.ValidProofs C12.NormProofs.
 Import ListNotations.
 Open Scope Z_scope.
